@@ -1,7 +1,7 @@
 """Shared machinery of the optimizer checks C09, C10, C15: case generator
 (merit-function families, configurations, operation sequences), Coq emission of
 the recorded traces for run/RunOpt.v, and the common check driver."""
-import json, math, os
+import json, math, os, re
 from concurrent.futures import ThreadPoolExecutor
 import vlib
 from vlib import clist, cbool, cnat, cn
@@ -19,6 +19,15 @@ FOREIGN = [("run_simplex", {"n_steps": 4}), ("run_simplex", {"n_steps": 12}), ("
            ("run_jacobian", {"n": 2}), ("add_point_to_log", {"tag": "t1"})]
 TAGS_V = ["", "a", "b"]
 TAGS_T = ["", "p", "q"]
+# string-selector mode: tags and names with proper prefixes, common suffixes, regex metacharacters,
+# upper / lower case variants, empty and duplicate tags, indexed names beyond k9
+TAGS_RICH_V = ["", "", "arc", "arc", "arc2", "arc23", "xarc", "Arc", "ARC", "a", "ab", "b", "a.b", "axb", "a|b", "(a)", "a[1]", "a1",
+               "a*", "aa", "a+", "a?", "a$", "^a", "q.", "ir1", "ir10"]
+TAGS_RICH_T = ["", "", "p", "pp", "p2", "P", "q", "q|p", "t.x", "tax", "t*", "(t)", "t[0]", "t0", "beta", "beta_x", "x_beta", "t$", "^t"]
+NAME_POOLS = [[f"k{i}" for i in range(1, 13)],
+              ["k1", "k10", "k11", "k12", "k2", "k21", "K1", "k.1", "kx1"],
+              ["a", "ab", "abc", "b", "Ab", "a.b", "axb", "a+", "aa", "b$", "cb"],
+              ["kq.1", "kq11", "kq.10", "kqx1", "kq[1]", "kq1", "q1", "kq"]]
 ROW_TAGS = ["t1", "t2"]
 
 
@@ -79,15 +88,59 @@ def eval_fun(spec, k):
     return out          # (the singular terms spec["S"] are added by the runner only)
 
 
-def gen_sel(rng, n, tags, names=None, allow_bool=True):
+def str_selector(rng, attrs):
+    """a string entry: the exact tag / name (its regex metacharacters keep their regex meaning), its
+    escaped form, or a regular expression built from it; always a pattern that compiles"""
+    a = rng.choice(attrs)
+    k = rng.random()
+    if k < 0.42:
+        cand = a
+    elif k < 0.56:
+        cand = re.escape(a)
+    elif k < 0.66:
+        cand = (a[:max(1, len(a) - 1)] + ".*") if a else ".*"
+    elif k < 0.74:
+        cand = (re.escape(a[:-1]) + "[" + re.escape(a[-1]) + "0-9]") if a else ""
+    elif k < 0.83:
+        cand = f"{re.escape(a)}|{re.escape(rng.choice(attrs))}"
+    elif k < 0.89:
+        cand = re.escape(a) + "?"
+    elif k < 0.93:
+        cand = a.swapcase()
+    elif k < 0.97:
+        cand = "(?i)" + re.escape(a)
+    else:
+        cand = re.escape(a) + "\\d*"
+    try:
+        re.compile(cand)
+    except re.error:
+        cand = re.escape(a)
+    return cand
+
+
+def gen_sel(rng, n, tags, names=None, allow_bool=True, rich=False):
+    """a selector for enable / disable / step arguments: True / False, integer ids, strings
+    (matched against the tags, or against the names for vary_name), single or in lists, mixed"""
     k = rng.random()
     if allow_bool and k < 0.03:
         return rng.choice([True, False])
-    if names is not None:
-        return rng.sample(names, rng.randint(1, min(2, len(names))))
-    if k < 0.75 or not [t for t in tags if t]:
-        return rng.sample(range(n), rng.randint(1, min(2, n)))
-    return [rng.choice([t for t in tags if t])]
+    attrs = names if names is not None else tags
+    if not rich:
+        if names is not None:
+            return rng.sample(names, rng.randint(1, min(2, len(names))))
+        if k < 0.75 or not [t for t in tags if t]:
+            return rng.sample(range(n), rng.randint(1, min(2, n)))
+        return [rng.choice([t for t in tags if t])]
+    form = rng.random()
+    if form < 0.07:
+        return rng.randrange(n)                                   # a single integer id
+    if form < 0.25 and names is None:
+        return rng.sample(range(n), rng.randint(1, min(3, n)))
+    if form < 0.5:
+        return str_selector(rng, attrs)                           # a single string
+    if form < 0.88:
+        return [str_selector(rng, attrs) for _ in range(rng.choice([1, 1, 2, 3]))]
+    return [rng.randrange(n), str_selector(rng, attrs)]           # mixed list
 
 
 def gen_case(rng, profile):
@@ -97,7 +150,17 @@ def gen_case(rng, profile):
         m = rng.randint(n + 1, 5) if n < 5 else 5
     else:
         m = rng.choice([1, 2, 3, 4, 5])
+    rich = rng.random() < {"C10": 0.5, "C09": 0.3, "C15": 0.3}[profile]     # string-selector mode
+    if rich and rng.random() < 0.07:
+        n = 12                                                                # k1 .. k12
     fun = gen_fun(rng, "linear" if fam == "inconsistent" else fam, n, m)
+    if rich:
+        pool = NAME_POOLS[0] if n == 12 else rng.choice(NAME_POOLS)
+        names = list(pool) if n == 12 else rng.sample(pool, n)
+        vtag_pool, ttag_pool = TAGS_RICH_V, TAGS_RICH_T
+    else:
+        names = [f"k{j}" for j in range(n)]
+        vtag_pool, ttag_pool = TAGS_V, TAGS_T
     unit = rng.random() < (0.6 if profile != "C10" else 0.7)
     x0 = [rnd(rng, -2, 2) for _ in range(n)]
     # where the solution is: inside the limits, outside, or far away
@@ -130,7 +193,7 @@ def gen_case(rng, profile):
         if rng.random() < (0.6 if profile == "C10" else 0.3):
             ms = rng.choice([0.01, 0.05, 0.1, 0.25, 0.5, 1.0, 2.0])
         vary.append({"limits": lim, "step": rng.choice([None, None, 1e-8, 1e-6, 1e-4]), "weight": w, "max_step": ms,
-                     "tag": rng.choice(TAGS_V), "active": rng.random() < 0.9})
+                     "tag": rng.choice(vtag_pool), "active": rng.random() < 0.9})
     if not any(v["active"] for v in vary) and rng.random() < 0.8:
         vary[0]["active"] = True
     if rng.random() < 0.03:
@@ -159,7 +222,7 @@ def gen_case(rng, profile):
         if i in log_targets and not v > 0:
             v = abs(v) + 0.1
         targets.append({"value": v, "tol": tol, "weight": rng.choice([1.0, 1.0, 1.0, 0.5, 2.0, 10.0, 1e3, 1e-2]),
-                        "tag": rng.choice(TAGS_T), "optimize_log": i in log_targets})
+                        "tag": rng.choice(ttag_pool), "optimize_log": i in log_targets})
     if rng.random() < 0.12:
         j = rng.randrange(n)
         d = 1 if kstar[j] >= x0[j] else -1
@@ -191,7 +254,6 @@ def gen_case(rng, profile):
     opts = {"n_steps_max": rng.choice([1, 2, 3, 5, 8, 12, 20, 25] if profile != "C09" else [2, 5, 8, 12, 20, 25, 25]), "assert_within_tol": rng.random() < 0.92,
             "restore_if_fail": rng.random() < 0.8,
             "check_limits": check_limits}
-    names = [f"k{j}" for j in range(n)]
     vt = [v["tag"] for v in vary]
     tt = [t["tag"] for t in targets]
     twin = None
@@ -205,17 +267,17 @@ def gen_case(rng, profile):
         if force_dt is not None:
             a["disable_target"] = force_dt
         elif rng.random() < 0.35:
-            a["disable_target"] = gen_sel(rng, m, tt, allow_bool=False)
+            a["disable_target"] = gen_sel(rng, m, tt, allow_bool=False, rich=rich)
         if rng.random() < 0.35:
-            a["disable_vary"] = gen_sel(rng, n, vt, allow_bool=False)
+            a["disable_vary"] = gen_sel(rng, n, vt, allow_bool=False, rich=rich)
         if rng.random() < 0.25:
-            a["disable_vary_name"] = gen_sel(rng, n, vt, names=names, allow_bool=False)
+            a["disable_vary_name"] = gen_sel(rng, n, vt, names=names, allow_bool=False, rich=rich)
         if rng.random() < 0.08 and not no_target_enable:
-            a["enable_target"] = gen_sel(rng, m, tt, allow_bool=False)
+            a["enable_target"] = gen_sel(rng, m, tt, allow_bool=False, rich=rich)
         if rng.random() < 0.08:
-            a["enable_vary"] = gen_sel(rng, n, vt, allow_bool=False)
+            a["enable_vary"] = gen_sel(rng, n, vt, allow_bool=False, rich=rich)
         if rng.random() < 0.05:
-            a["enable_vary_name"] = gen_sel(rng, n, vt, names=names, allow_bool=False)
+            a["enable_vary_name"] = gen_sel(rng, n, vt, names=names, allow_bool=False, rich=rich)
         return a
 
     mode = rng.random()
@@ -238,7 +300,7 @@ def gen_case(rng, profile):
                 elif k < 0.9:
                     ops.append(["tag", rng.choice(ROW_TAGS)])
                 else:
-                    ops.append(["disable", None, gen_sel(rng, n, vt, allow_bool=False), None])
+                    ops.append(["disable", None, gen_sel(rng, n, vt, allow_bool=False, rich=rich), None])
         else:
             for _ in range(rng.randint(1, 4)):
                 a = gen_args(no_target_enable=True, force_dt=[j])
@@ -266,16 +328,37 @@ def gen_case(rng, profile):
                 ops.append(["reload_tag", rng.choice(ROW_TAGS + ["take_best"])])
                 rows_est += 1
             elif k < p_solve + 0.60:
-                ops.append(["enable", gen_sel(rng, m, tt) if rng.random() < 0.5 else None,
-                            gen_sel(rng, n, vt) if rng.random() < 0.5 else None,
-                            gen_sel(rng, n, vt, names=names) if rng.random() < 0.3 else None])
+                ops.append(["enable", gen_sel(rng, m, tt, rich=rich) if rng.random() < 0.5 else None,
+                            gen_sel(rng, n, vt, rich=rich) if rng.random() < 0.5 else None,
+                            gen_sel(rng, n, vt, names=names, rich=rich) if rng.random() < 0.3 else None])
             elif k < p_solve + 0.72:
-                ops.append(["disable", gen_sel(rng, m, tt) if rng.random() < 0.5 else None,
-                            gen_sel(rng, n, vt) if rng.random() < 0.5 else None,
-                            gen_sel(rng, n, vt, names=names) if rng.random() < 0.3 else None])
+                ops.append(["disable", gen_sel(rng, m, tt, rich=rich) if rng.random() < 0.5 else None,
+                            gen_sel(rng, n, vt, rich=rich) if rng.random() < 0.5 else None,
+                            gen_sel(rng, n, vt, names=names, rich=rich) if rng.random() < 0.3 else None])
             else:
                 ops.append(["clear"])
                 rows_est = 1
+    # ---- a name / tag that is a proper prefix of another one: the longer one disabled for good, the shorter one
+    #      enabled again (explicitly or by the undo of a per-call disable_* argument), then steps
+    if rich and twin is None and rng.random() < 0.3:
+        pairs = [("name", a, b) for a in names for b in names if a != b and b.startswith(a)]
+        vt_ = [v["tag"] for v in vary]
+        pairs += [("tag", a, b) for a in set(vt_) for b in set(vt_) if a and a != b and b.startswith(a)]
+        if pairs:
+            kind_, short, long_ = rng.choice(pairs)
+            esc = rng.choice([lambda x: x, re.escape])
+            def ok(pat):
+                try:
+                    re.compile(pat); return pat
+                except re.error:
+                    return re.escape(pat)
+            sh, lg = ok(esc(short)), ok(esc(long_))
+            first = ["disable", None, None, [lg]] if kind_ == "name" else ["disable", None, [lg], None]
+            if rng.random() < 0.5:
+                second = ["enable", None, None, sh] if kind_ == "name" else ["enable", None, sh, None]
+            else:
+                second = ["step", 1, True, ({"disable_vary_name": sh} if kind_ == "name" else {"disable_vary": [sh]}), False]
+            ops = [first, second, ["step", rng.choice([1, 2, 3]), True, {}, gen_bro()]] + ops
     # ---- "reconfigure between calls": attributes of the public Target / Vary objects re-assigned on the live optimizer
     def gen_set():
         k = rng.random()
@@ -339,7 +422,7 @@ def gen_case(rng, profile):
             x0[j] = vary[j]["limits"][1] + 0.3
             ops = [["enable", None, [j], None], ["tag", "t1"], ["disable", None, [j], None], ["tag", "t2"]] + ops
     return {"family": fam, "where": where, "fun": fun, "x0": x0, "vary": vary, "targets": targets, "opts": opts,
-            "ops": ops, "twin": twin, "timeout": 5.0, "ctor": ctor}
+            "ops": ops, "twin": twin, "timeout": 5.0, "ctor": ctor, "names": names}
 
 
 # ---------------------------------------------------------------------------
@@ -461,7 +544,7 @@ def emit_cfg(case, N):
     maxs = clist(["None" if v["max_step"] is None else f"(Some {cf(v['max_step'])})" for v in case["vary"]])
     o = case["opts"]
     return (f"(mkCfg {cfl([v['weight'] for v in case['vary']])} {lims} {steps} {maxs} "
-            f"{clist([cn(N(v['tag'])) for v in case['vary']])} {clist([cn(N(f'k{j}')) for j in range(n)])} "
+            f"{clist([cn(N(v['tag'])) for v in case['vary']])} {clist([cn(N(nm)) for nm in (case.get('names') or [f'k{j}' for j in range(n)])])} "
             f"{cfl([t['value'] for t in case['targets']])} {cfl([float('nan') if t['tol'] is None else t['tol'] for t in case['targets']])} "
             f"{cfl([t['weight'] for t in case['targets']])} {clist([cn(N(t['tag'])) for t in case['targets']])} "
             f"{o['n_steps_max']} {cbool(o['assert_within_tol'])} {cbool(o['restore_if_fail'])} {cbool(o.get('check_limits', True))} "
@@ -487,6 +570,23 @@ def emit_case(case, res):
     sfail = clist([jm(mm) for mm in t["svdfail"]])
     btab = clist([f"(({jm(k[0])}, {cfl(k[1])}, {cfl(k[2])}, {cfl(k[3])}, {cfl(k[4])}), {jm(j)})" for k, j in t["bro"]])
     ltab = clist([f"({cf(x)}, {cf(y)})" for x, y in t.get("log10", [])])
+    # re.fullmatch verdicts for every string selector of the history against every tag and name
+    pats = set()
+    def collect(x):
+        if isinstance(x, str):
+            pats.add(x)
+        elif isinstance(x, (list, tuple)):
+            for e in x:
+                collect(e)
+    for op in case["ops"]:
+        if op[0] in ("enable", "disable"):
+            collect(op[1]); collect(op[2]); collect(op[3])
+        elif op[0] == "step":
+            for v in op[3].values():
+                collect(v)
+    strs = set(v["tag"] for v in case["vary"]) | set(tt["tag"] for tt in case["targets"]) | \
+        set(case.get("names") or [f"k{j}" for j in range(len(case["x0"]))])
+    mtab = clist([f"({cn(N(pp))}, {cn(N(ss))})" for pp in sorted(pats) for ss in sorted(strs) if re.fullmatch(pp, ss) is not None])
     if res["status"] == "ctor_error":
         if res["ctor_error"] not in MODEL_ERRS:
             return None
@@ -522,7 +622,7 @@ def emit_case(case, res):
             dirty = False
         ops = clist(items)
     return (f"(mkCase {cfg} {cfl(case['x0'])} {cbl([v['active'] for v in case['vary']])}\n  {ftab}\n  {ptab}\n  {ntab}\n  {sfail}\n"
-            f"  {btab}\n  {ltab}\n  {init}\n  {ops})")
+            f"  {btab}\n  {ltab}\n  {mtab}\n  {init}\n  {ops})")
 
 
 HEADER = ("From Coq Require Import List ZArith NArith PrimFloat.\nFrom XD Require Import model.Opt run.RunOpt.\n"
